@@ -391,9 +391,17 @@ func checkC38(t *c38Target, r c38Req, c *ev.Collector, excluded func(string) boo
 		if pc := po.msg.GetApiCollection(); pc != nil {
 			paddon = pc.CollectionData.AddOn
 		}
+		pcolData, ccolData := "", col.CollectionData.String()
+		if pc := po.msg.GetApiCollection(); pc != nil {
+			pcolData = pc.CollectionData.String()
+		}
 		if papi.Name != api.Name || papi.ComputeUnits != api.ComputeUnits || caddon != paddon || cl != pl || ce != pe {
 			return fmt.Sprintf("consumer and provider disagree: consumer API=%q CU=%d addon=%q block=(%d,%d) extensions=%v | provider API=%q CU=%d addon=%q block=(%d,%d) extensions=%v",
 				api.Name, api.ComputeUnits, caddon, cl, ce, names, papi.Name, papi.ComputeUnits, paddon, pl, pe, extNames(po.msg))
+		}
+		// "the API" is the whole spec entry (category, block parsing, ...) of one collection (interface, connection type, add-on)
+		if papi.String() != api.String() || pcolData != ccolData {
+			return fmt.Sprintf("consumer and provider resolve the request to different spec entries: consumer collection {%s} API {%s} | provider collection {%s} API {%s}", ccolData, api.String(), pcolData, papi.String())
 		}
 		return ""
 	}
@@ -674,7 +682,20 @@ func genRestURL(t *rapid.T, tg *c38Target, conn string) string {
 		u = rapid.SampledFrom([]string{"/", "", "/unknown/route", "/cosmos", "cosmos/bank/v1beta1/params", "//", "/cosmos/bank/v1beta1/params/", "/COSMOS/BANK/V1BETA1/PARAMS"}).Draw(t, "oddRoute")
 	} else {
 		name := rapid.SampledFrom(names).Draw(t, "route")
-		if rapid.IntRange(0, 3).Draw(t, "blockRoute") == 0 { // favour routes that carry a height
+		if rapid.IntRange(0, 3).Draw(t, "sharedRoute") == 0 { // favour routes the spec defines under several connection types
+			var shared []string
+			for _, n := range names {
+				for ct, m := range tg.apis {
+					if _, ok := m[n]; ok && ct != conn {
+						shared = append(shared, n)
+						break
+					}
+				}
+			}
+			if len(shared) > 0 {
+				name = rapid.SampledFrom(shared).Draw(t, "sharedRouteName")
+			}
+		} else if rapid.IntRange(0, 3).Draw(t, "blockRoute") == 0 { // favour routes that carry a height
 			var hs []string
 			for _, n := range names {
 				if strings.Contains(n, "height}") || strings.Contains(n, "{block}") {
@@ -921,8 +942,51 @@ func genC38Plan(t *rapid.T, plan c38Plan) (*c38Target, c38Req, string) {
 
 func propC38(t *rapid.T) {
 	c := ev.For("C38")
-	tg, r, form := genC38(t)
+	plan := rapid.SampledFrom(c38Plans).Draw(t, "target")
+	tg, r, form := genC38Plan(t, plan)
+	var extraClasses []string
+	// 1 case in 4 (not gRPC, whose parser needs a reflection server): parsing must be a function of
+	// the request, not of what a parser instance parsed before. The consumer is a NEW parser that
+	// first parses 1-2 other requests (the same request under another connection type, or another
+	// generated request); the provider is a NEW, unused parser.
+	if plan.iface != spectypes.APIInterfaceGrpc && rapid.IntRange(0, 3).Draw(t, "freshParsers") == 0 {
+		spec, err := loadSpec(plan.spec)
+		if err != nil {
+			t.Fatalf("%s", ev.HarnessError("cannot load spec %s: %v", plan.spec, err))
+		}
+		cp := *tg
+		if cp.consumer, err = newParser(spec, plan.iface); err != nil {
+			t.Fatalf("%s", ev.HarnessError("cannot build parser: %v", err))
+		}
+		if cp.provider, err = newParser(spec, plan.iface); err != nil {
+			t.Fatalf("%s", ev.HarnessError("cannot build parser: %v", err))
+		}
+		n := rapid.IntRange(1, 2).Draw(t, "warmups")
+		for i := 0; i < n; i++ {
+			wr := r
+			if rapid.IntRange(0, 2).Draw(t, "warmupKind") < 2 {
+				var others []string
+				for _, ct := range []string{"GET", "POST", "PUT", "DELETE", ""} {
+					if ct != r.Conn {
+						others = append(others, ct)
+					}
+				}
+				wr.Conn = rapid.SampledFrom(others).Draw(t, "warmupConn")
+				extraClasses = append(extraClasses, "warm-up:same-request-other-connection-type")
+			} else {
+				_, wr, _ = genC38Plan(t, plan)
+				extraClasses = append(extraClasses, "warm-up:other-request")
+			}
+			wo := guardedParse(cp.consumer, wr.URL, wr.Data, wr.Conn, wr.Meta, extensionslib.ExtensionInfo{LatestBlock: wr.Latest})
+			if wo.timedOut {
+				t.Fatalf("%s", ev.HarnessError("warm-up ParseMsg did not return within %v for %s", c38Watchdog, wr))
+			}
+		}
+		tg = &cp
+		extraClasses = append(extraClasses, "fresh-parsers-with-warm-up")
+	}
 	res := checkC38(tg, r, c, ev.Excluded)
+	res.classes = append(res.classes, extraClasses...)
 	for _, x := range res.excluded {
 		c.Exclude(x)
 	}
@@ -950,7 +1014,7 @@ func c38Warmup() error {
 
 func TestC38(t *testing.T) {
 	c := ev.For("C38")
-	c.SetRule("requests for 7 (spec, interface) pairs built from the checked-in specs - ETH1 JSON-RPC (single and batch), LAV1/COSMOSHUB REST (GET/POST routes of the spec with filled path parameters and query strings), Tendermint RPC (URI form, JSON-RPC form, both) and gRPC (JSON, protobuf, empty and garbage bodies; parser wired to a local reflection server as providers do) - start from a valid request and get 0-3 structured mutations at JSON-tree level (hostile block values: huge/negative/float/exponent numbers, hashes, odd tags, deep nesting up to 11000 levels, other types; unknown/odd methods; params of other shapes and arities; ids, versions, extra keys; odd batch elements) plus 0-2 text-level mutations (truncate, delete, insert tokens, duplicate, BOM/prefix, suffix, byte flip, quote change, wrap, tiny documents) or URL mutations (cut, control characters, bad escapes, prefixes, case, repeats), optional spec headers (x-cosmos-block-height ...) with odd values, odd connection types, consumer latest block in {0, small, large}. Each is parsed as the consumer under recover+120s watchdog, then, if it parsed, as the provider does (metadata = the consumer message's headers, ExtensionOverride = the consumer message's extension names, LatestBlock 0) by an independent parser instance. non-trivial = the consumer parse succeeded; distinct = whole request")
+	c.SetRule("requests for 7 (spec, interface) pairs built from the checked-in specs - ETH1 JSON-RPC (single and batch), LAV1/COSMOSHUB REST (GET/POST routes of the spec with filled path parameters and query strings), Tendermint RPC (URI form, JSON-RPC form, both) and gRPC (JSON, protobuf, empty and garbage bodies; parser wired to a local reflection server as providers do) - start from a valid request and get 0-3 structured mutations at JSON-tree level (hostile block values: huge/negative/float/exponent numbers, hashes, odd tags, deep nesting up to 11000 levels, other types; unknown/odd methods; params of other shapes and arities; ids, versions, extra keys; odd batch elements) plus 0-2 text-level mutations (truncate, delete, insert tokens, duplicate, BOM/prefix, suffix, byte flip, quote change, wrap, tiny documents) or URL mutations (cut, control characters, bad escapes, prefixes, case, repeats), optional spec headers (x-cosmos-block-height ...) with odd values, odd connection types, consumer latest block in {0, small, large}. Each is parsed as the consumer under recover+120s watchdog, then, if it parsed, as the provider does (metadata = the consumer message's headers, ExtensionOverride = the consumer message's extension names, LatestBlock 0) by an independent parser instance; in 1 case in 4 (not gRPC) both parsers are new instances and the consumer's first parses 1-2 other requests (the same request under another connection type, or another generated request): the result may not depend on a parser's earlier requests; agreement covers the whole spec entry of the API and its collection (interface, connection type, add-on). non-trivial = the consumer parse succeeded; distinct = whole request")
 	c.Assume("the consumer's policy and the provider's endpoint allow all add-ons and the archive extension",
 		"an unknown method/route that the parser maps to its 'Default-' API (20 CU) counts as a supported API; for spec APIs the name must be an enabled API of the spec and cost the spec's CU times the extension multiplier",
 		"a call that does not return within 120 s is inconclusive, not a violation",
